@@ -5,6 +5,7 @@
    hexbytes: "-" = empty
    sym: "-" = no symbol file for the module, else  S:func_lo:func_size:cfi_lo:cfi_size:cfa_off:ra_kind:ra_arg:fp_off|-
         or  Y|func_lo|func_size|cfi_lo|cfi_size|<STACK CFI INIT rules, ~ for space>|<addr>=<STACK CFI delta rules>|...
+        or  T|<line>|<line>|...  a whole symbol file (FUNC / STACK WIN / STACK CFI lines, ~ for space) after its MODULE line
    gp: the registers of CpuContext::REGISTERS other than ip/sp/fp/lr, in REGISTERS order
    Answer: <debug answer> ## <release answer>; an answer is  P  (panic),  OOF  (out of fuel), or frames joined by '|':
      instr,resume,sp,fp,lr,trust,valid names joined by '+',gp values joined by '+',module index or - *)
@@ -25,6 +26,17 @@ let bytes_of_string (s : string) : z list = List.init (String.length s) (fun i -
 let untilde (s : string) : string = String.map (fun c -> if c = '~' then ' ' else c) s
 let parse_sym (s : string) =
   if s = "-" then None else
+  if String.length s > 2 && String.sub s 0 2 = "T|" then begin
+    (* T|line|line|...  (~ for space): a whole symbol file after its MODULE line *)
+    let lines = List.tl (String.split_on_char '|' s) in
+    let all = "MODULE Linux x86 000000000000000000000000000000000 m" :: List.map untilde lines in
+    match parse_symfile (List.map bytes_of_string all) with
+    | Some t ->
+        Some { s_func_lo = z_of_int 0; s_func_size = z_of_int 0; s_cfi_lo = z_of_int 0; s_cfi_size = z_of_int 0;
+               s_cfa_off = z_of_int 0; s_ra_kind = z_of_int 0; s_ra_arg = z_of_int 0; s_fp_off = None; s_text = None;
+               s_table = Some t }
+    | None -> failwith ("symbol file rejected by the grammar: " ^ s)
+  end else
   if String.length s > 2 && String.sub s 0 2 = "Y|" then begin
     (* Y|func_lo|func_size|cfi_lo|cfi_size|init rules (~ for space)|addr=delta rules|... *)
     match String.split_on_char '|' s with
@@ -35,14 +47,14 @@ let parse_sym (s : string) =
           | None -> failwith ("bad delta " ^ d)) deltas in
         Some { s_func_lo = z_of_string flo; s_func_size = z_of_string fsz; s_cfi_lo = z_of_string clo;
                s_cfi_size = z_of_string csz; s_cfa_off = z_of_int 0; s_ra_kind = z_of_int 0; s_ra_arg = z_of_int 0;
-               s_fp_off = None; s_text = Some (bytes_of_string (untilde init), ds) }
+               s_fp_off = None; s_text = Some (bytes_of_string (untilde init), ds); s_table = None }
     | _ -> failwith ("bad sym " ^ s)
   end else
   match String.split_on_char ':' s with
   | [ "S"; flo; fsz; clo; csz; cfa; rk; ra; fp ] ->
       Some { s_func_lo = z_of_string flo; s_func_size = z_of_string fsz; s_cfi_lo = z_of_string clo;
              s_cfi_size = z_of_string csz; s_cfa_off = z_of_string cfa; s_ra_kind = z_of_string rk;
-             s_ra_arg = z_of_string ra; s_fp_off = (if fp = "-" then None else Some (z_of_string fp)); s_text = None }
+             s_ra_arg = z_of_string ra; s_fp_off = (if fp = "-" then None else Some (z_of_string fp)); s_text = None; s_table = None }
   | _ -> failwith ("bad sym " ^ s)
 let fmt_frames mods ngp (fs : frame list) : string =
   String.concat "|" (List.map (fun f ->
